@@ -119,7 +119,7 @@ def main():
         cols.insert(int(rng.integers(0, 4)), 'label')
         df = pd.DataFrame({c: rng.choice(vals[:int(rng.integers(2, len(vals) + 1))], nrows) for c in cols})
         coded = pd.DataFrame({c: df[c].astype('category').cat.codes for c in cols})
-        for name in ('MI-numba-randomized', 'MI-numba-3mr', 'max-value-coverage', 'MI', 'Constant'):
+        for name in ('MI-numba-randomized', 'MI-numba-3mr', 'max-value-coverage', 'MI', 'Constant', 'AMI', 'correlation-Pearson'):
             for mode in ('True', 'False'):
                 args = make_args(heuristic=name, target_ranking_only=mode)
                 CR.GLOBAL_PRIOR_COMB_COUNTS.clear()
@@ -144,13 +144,19 @@ def main():
                         pass
                     else:
                         cands.append(reference(name, coded[b].values, coded[a].values))
-                    if not any(approx(float(s), c, 1e-4) for c in cands if c is not None):
+                    def same(x, c):
+                        if c is None:
+                            return False
+                        if np.isnan(c) or np.isnan(x):
+                            return bool(np.isnan(c) and np.isnan(x))
+                        return approx(x, c, 1e-4)
+                    if not any(same(float(s), c) for c in cands):
                         h.fail(f'row_score_is_heuristic[{name}]', wit, f'row score {s}, expected one of {cands}',
                                obligations=['core_ranking.mixed_rank_graph/ensures.score_is_selected_heuristic',
                                             'importance_estimator.generate_data_for_ranking/ensures'])
     h.bounded_note('dispatch per documented/statement heuristic name vs independent reference scorers on int8/int16 coded vectors; '
                    'rows of the real mixed_rank_graph vs the heuristic on the coded columns with the label as target',
-                   f'{n_pairs} vector pairs x names; {n_frames} string frames x 5 heuristics x 2 modes', h.evaluations)
+                   f'{n_pairs} vector pairs x names; {n_frames} string frames x 7 heuristics x 2 modes', h.evaluations)
     h.rules.append(f'documented names extracted this run: {docs}')
     return h.finish()
 
